@@ -115,6 +115,12 @@ func topicName(i int64) string {
 	return fmt.Sprintf("t%d", i)
 }
 
+func topicIndex(t string) int64 {
+	var i int64
+	fmt.Sscanf(t, "t%d", &i)
+	return i
+}
+
 func codecOpt(c int64) kgo.Opt {
 	switch c {
 	case 1:
@@ -399,6 +405,7 @@ func scenProduce(s *Sim) {
 	s.OnReq = append(s.OnReq, wm.onReq)
 	s.OnResp = append(s.OnResp, wm.onResp)
 	s.OnProcessed = append(s.OnProcessed, wm.onProcessed)
+	s.OnWritten = append(s.OnWritten, wm.onWritten)
 
 	// clients
 	clients := map[string]*kgo.Client{}
@@ -407,6 +414,38 @@ func scenProduce(s *Sim) {
 		if _, ok := clients[a.Client]; !ok {
 			clients[a.Client] = s.Client(a.Client, st.producerOpts(a.Client)...)
 			names = append(names, a.Client)
+		}
+	}
+	// C29: fast-forward partitions to just below the sequence wrap before
+	// their first batch. The producer id is loaded first (loading it resets
+	// all sequences), one record to the topic's last partition creates the
+	// partition buffers, then the verif-tagged hook sets the next sequence.
+	if wk := p.Knob("wrap_k", 0); wk > 0 {
+		for _, n := range names {
+			cl := clients[n]
+			ctx, cancel := context.WithTimeout(context.Background(), 30*time.Second)
+			if _, _, err := cl.ProducerID(ctx); err != nil {
+				s.Logf("wrap: ProducerID: %v", err)
+			}
+			for _, t := range topics {
+				warm := st.newRec(n, 99, 0, "sync", plan.Op{A: topicIndex(t), B: int64(nparts - 1), C: 10})
+				warm.invokeSeq = s.Seq()
+				res := cl.ProduceSync(ctx, warm.rec)
+				warm.returnSeq = s.Seq()
+				st.mu.Lock()
+				warm.promises, warm.promSeq, warm.err, warm.off = 1, warm.returnSeq, res.FirstErr(), warm.rec.Offset
+				st.mu.Unlock()
+				for part := int32(0); part < nparts-1; part++ {
+					seq := int32(seqMod - 1 - int64(mix64(s.P.Seed^uint64(part+1)*77)%uint64(wk)))
+					if err := cl.VerifSetProduceSequence(t, part, seq); err != nil {
+						s.Logf("wrap: %v", err)
+					} else {
+						s.Probe("sequence_fast_forwarded")
+						s.Logf("wrap: %s %s/%d next sequence %d", n, t, part, seq)
+					}
+				}
+			}
+			cancel()
 		}
 	}
 	// gauge invariant at every quiescent point
